@@ -220,7 +220,7 @@ class Check:
                 self.replay(payload)
             else:
                 self.correspondence()
-        except Exception as e:
+        except (Exception, Mo.DriverDied) as e:
             corr_error = traceback.format_exc()
         finally:
             try:
@@ -344,6 +344,8 @@ class NlpCheck(Check):
             res = En.compare_case(desc, self.driver, self.rng, R=R, points=points, extra_phys=self.extra_phys)
         except (ZeroDivisionError, OverflowError):
             return None      # the random point hit a pole / numbers beyond float range: not a finding
+        except Mo.DriverDied:
+            raise            # infrastructure: the check ends with exit 2
         except Exception as e:
             return e
         return res
